@@ -49,7 +49,7 @@ func init() {
 		rep := &vx.Report{Job: c.Job, Engine: "bfs", Outcomes: map[string]int64{}, Exhaustive: true}
 		depth := c.PI("depth", 6)
 		now := rtime.Now().Unix()
-		ops := []string{"connect1", "connect2", "connect3", "close1", "close2", "close3", "up=0", "up=-5", "up=100", "down=0", "down=100", "expire", "renew", "cap=1", "cap=2", "cap=0"}
+		ops := []string{"connect1", "connect2", "connect3", "close1", "close2", "close3", "up=0", "up=-5", "up=100", "down=0", "down=100", "expire", "renew", "cap=1", "cap=2", "cap=0", "round"}
 		uid := uidOf(0)
 		type inst struct {
 			mgr   usermanager.UserManager
@@ -116,6 +116,15 @@ func init() {
 					fmt.Sscanf(op, "cap=%d", &n)
 					m.WriteUserInfo(usermanager.UserInfo{UID: uid, SessionsCap: i32(int32(n))})
 					ref.cap = n
+				case op == "round":
+					// a usage-upload round (no traffic was carried): it finds an active user without credit or
+					// past expiry and closes all its sessions
+					in.panel.updateUsageQueue()
+					in.panel.commitUpdate()
+					if len(ref.open) > 0 && (ref.up <= 0 || ref.down <= 0 || ref.expired) {
+						ref.open = map[uint32]bool{}
+						in.sesh = map[uint32]*mux.Session{}
+					}
 				}
 				if last {
 					// invariants of the reached state
@@ -162,6 +171,10 @@ func init() {
 				case strings.HasPrefix(op, "cap="):
 					fmt.Sscanf(op, "cap=%d", &n)
 					ref.cap = n
+				case op == "round":
+					if len(ref.open) > 0 && (ref.up <= 0 || ref.down <= 0 || ref.expired) {
+						ref.open = map[uint32]bool{}
+					}
 				}
 			}
 			return ref
